@@ -277,6 +277,8 @@ impl<T> Handle<T> {
         // Release the lock before rebuilding the interest cache, as that
         // function will lock the new subscriber.
         drop(lock);
+        #[cfg(feature = "verif-hooks")]
+        tracing_core::verif::point(tracing_core::verif::site::MODIFY_AFTER_UNLOCK);
 
         callsite::rebuild_interest_cache();
 
